@@ -557,14 +557,26 @@ def _exit_status(rep: Report, ctx: Any, cfgs: dict[str, CFG]) -> None:
     for n in ast.walk(he.node):
         if isinstance(n, ast.If) and any(x is r for x in ast.walk(n)):
             guard = n
-    ok = guard is not None and "fail_on_warning" in norm(guard.test) and "ErrorLevel.ERROR" in norm(guard.test) and \
-        isinstance(guard.test, ast.BoolOp) and isinstance(guard.test.op, ast.Or) and "code=1" in norm(r)
+    # the level variable (any spelling): the local compared with ErrorLevel.ERROR in the guard of the raise
+    lvl = set()
+    if guard is not None and isinstance(guard.test, ast.BoolOp) and isinstance(guard.test.op, ast.Or):
+        for v in guard.test.values:
+            if isinstance(v, ast.Compare) and isinstance(v.ops[0], ast.Eq) and norm(v.comparators[0]) == "ErrorLevel.ERROR" and isinstance(v.left, ast.Name):
+                lvl.add(v.left.id)
+    ok = guard is not None and bool(lvl) and isinstance(guard.test, ast.BoolOp) and isinstance(guard.test.op, ast.Or) and \
+        {norm(v) for v in guard.test.values} == {f"{next(iter(lvl))} == ErrorLevel.ERROR", "fail_on_warning"} and "code=1" in norm(r)
     rep.check(ok, "R06.5", "cli.handle_errors::exit-guard", "typer.Exit(code=1) is not guarded by `error_level == ERROR or fail_on_warning`",
               where(he, r), lhs=norm(guard.test) if guard is not None else None, rhs="error_level == ErrorLevel.ERROR or fail_on_warning")
-    # error_level becomes ERROR iff some error has level ERROR
-    sets = [n for n in ast.walk(he.node) if isinstance(n, ast.Assign) and norm(n.targets[0]) == "error_level" and "ERROR" in norm(n.value)]
-    ok2 = bool(sets) and any(isinstance(p, ast.If) and "level == ErrorLevel.ERROR" in norm(p.test) and any(x is sets[0] for x in ast.walk(p))
-                             for p in ast.walk(he.node))
+    # the level becomes ERROR iff some error has level ERROR: set under `if <e>.level == ErrorLevel.ERROR` in a loop `for <e> in errors`
+    sets = [n for n in ast.walk(he.node) if isinstance(n, ast.Assign) and norm(n.targets[0]) in lvl and norm(n.value) == "ErrorLevel.ERROR"]
+    ok2 = False
+    for lp in [n for n in ast.walk(he.node) if isinstance(n, ast.For) and norm(n.iter) == "errors"]:
+        ev = norm(lp.target)
+        for p_ in lp.body:
+            if isinstance(p_, ast.If) and norm(p_.test) == f"{ev}.level == ErrorLevel.ERROR" and any(x in sets for x in p_.body):
+                ok2 = True
+    others = [n for n in ast.walk(he.node) if isinstance(n, ast.Assign) and norm(n.targets[0]) in lvl and n not in sets]
+    ok2 = ok2 and all(norm(o.value) == "ErrorLevel.WARNING" and o in he.node.body for o in others)
     rep.check(ok2, "R06.5", "cli.handle_errors::level-scan", "error_level is not derived from `error.level == ErrorLevel.ERROR` over all errors",
               where(he, he.node), lhs=[norm(s) for s in sets], rhs="set under `if error.level == ErrorLevel.ERROR` inside the loop over errors")
     # early `return` only when there are no errors
@@ -576,10 +588,15 @@ def _exit_status(rep: Report, ctx: Any, cfgs: dict[str, CFG]) -> None:
                   where(he, s), lhs=norm(par[0].test) if par else None, rhs="len(errors) == 0")
     # cli.generate hands the result of generate() to handle_errors with fail_on_warning
     g = ix.func("cli.generate")
-    txt = norm(g.node)
-    rep.check("handle_errors(errors, fail_on_warning)" in txt.replace("fail_on_warning=fail_on_warning", "fail_on_warning"),
-              "R06.5", "cli.generate::handle_errors", "the CLI does not pass the generator's diagnostics and fail_on_warning to handle_errors",
-              where(g, g.node), lhs="cli.generate", rhs="handle_errors(errors, fail_on_warning)")
+    from ..astutil import Locals
+
+    results = set(Locals(g.node).bound_from(lambda v: v.startswith("generate("), "assign"))
+    hcalls = [c for c in ast.walk(g.node) if isinstance(c, ast.Call) and call_name(c) == "handle_errors"]
+    ok4 = any(c.args and (norm(c.args[0]) in results or norm(c.args[0]).startswith("generate(")) and
+              (len(c.args) > 1 and norm(c.args[1]) == "fail_on_warning" or any(k.arg == "fail_on_warning" and norm(k.value) == "fail_on_warning" for k in c.keywords))
+              for c in hcalls)
+    rep.check(ok4, "R06.5", "cli.generate::handle_errors", "the CLI does not pass the generator's diagnostics and fail_on_warning to handle_errors",
+              where(g, g.node), lhs=[norm(c) for c in hcalls], rhs="handle_errors(<result of generate(...)>, fail_on_warning)")
     # no write on rejection: generate() returns [project] (a GeneratorError) before project.build(); _get_project... has no effects
     from .effects import effect_sites
 
@@ -593,9 +610,17 @@ def _exit_status(rep: Report, ctx: Any, cfgs: dict[str, CFG]) -> None:
         rep.check(not mine, "R06.5", f"{short(f)}::no-effects", f"filesystem/process effect before the document is accepted: "
                   f"{[e.what for e in mine]}", where(f, f.node), lhs=[e.what for e in mine], rhs="no effect sites")
     cfg_g = cfg_of(gen, cfgs)
-    builds = [s for s in cfg_g.stmts() if stmt_calls(s, ".build")]
-    rets = [s for s in cfg_g.stmts() if isinstance(s, ast.Return) and "[project]" in norm(s)]
-    guard_ok = bool(builds) and bool(rets) and all(cfg_g.is_dominated_by(b, lambda n: isinstance(n, ast.If) and "isinstance(project, GeneratorError)" in norm(n.test))
-                                                   for b in builds)
+    from ..astutil import Locals as _L
+
+    projs = set(_L(gen.node).bound_from(lambda v: v.startswith("_get_project_for_url_or_path("), "assign"))
+    builds = [s for s in cfg_g.stmts() if any(isinstance(c.func, ast.Attribute) and c.func.attr == "build" and norm(c.func.value) in projs
+                                               for c in stmt_calls(s, ".build"))]
+    rets = [s for s in cfg_g.stmts() if isinstance(s, ast.Return) and isinstance(s.value, ast.List) and len(s.value.elts) == 1 and norm(s.value.elts[0]) in projs]
+
+    def _reject(n: ast.AST) -> bool:
+        return (isinstance(n, ast.If) and any(norm(n.test) == f"isinstance({p_}, GeneratorError)" for p_ in projs) and bool(n.body)
+                and n.body[-1] in rets)
+
+    guard_ok = bool(builds) and bool(rets) and all(cfg_g.is_dominated_by(b, _reject) for b in builds)
     rep.check(guard_ok, "R06.5", "generate::reject-before-build", "project.build() is reachable for a rejected document",
               where(gen, gen.node), lhs=[norm(b) for b in builds], rhs="dominated by `if isinstance(project, GeneratorError): return [project]`")
